@@ -10,6 +10,8 @@ import (
 	"regexp"
 	"sort"
 	"strings"
+
+	"github.com/coreruleset/crs-toolchain/v2/internal/verifhook"
 )
 
 type inclusionLine struct {
@@ -71,6 +73,7 @@ func replaceSuffixes(inputLines *bytes.Buffer, suffixReplacements map[string]str
 		entry := scanner.Text()
 		if !skipRegex.MatchString(entry) {
 			for match, replacement := range suffixReplacements {
+				verifhook.Emit("suffix-iter", []string{entry, match}, replacement)
 				var found bool
 				entry, found = strings.CutSuffix(entry, match)
 				if found && replacement != `""` {
